@@ -575,8 +575,9 @@ func (fe *FnExec) doSlice(fr *frame, st *State, x *ssa.Slice) Val {
 			out.Cap = sl.Cap
 		}
 	} else {
-		// a sub-slice not starting at 0 gets a derived identity
-		r := fe.fresh("sub", "Int")
+		// a sub-slice not starting at 0 gets a derived identity: a function of the parent and the start
+		fe.eng.noteUFun("subref", 2)
+		r := sx("subref", sl.Ref, lo)
 		fe.assume(tImp(tEq(sl.Ref, "0"), tEq(r, "0")), "subslice of nil")
 		fe.assume(sx("<=", "0", r), "subslice id")
 		out.Ref = r
@@ -823,14 +824,18 @@ func (fe *FnExec) bindLets(fr *frame, ctx *EvalCtx) {
 		return
 	}
 	for _, l := range fr.con.Lets {
-		ci, ok := fr.callIdx[l.Call]
-		if !ok {
+		var cv ssa.Value
+		if ci, ok := fr.callIdx[l.Call]; ok {
+			cv = ci.(ssa.Value)
+		} else if pv, ok := fr.pseudoVals[l.Call]; ok {
+			cv = pv
+		} else {
 			continue // clauses using the name fail to evaluate and are reported individually
 		}
-		v, ok := fe.regs[ci.(ssa.Value)]
+		v, ok := fe.regs[cv]
 		if !ok {
-			v = fe.freshVal(ci.(ssa.Value).Type(), "let")
-			fe.regs[ci.(ssa.Value)] = v
+			v = fe.freshVal(cv.Type(), "let")
+			fe.regs[cv] = v
 		}
 		if tv, ok := v.(TupleV); ok {
 			for i, n := range l.Names {
